@@ -275,7 +275,7 @@ impl Property for P {
     }
     fn cases(tier: Tier) -> u64 {
         match tier {
-            Tier::Quick => 300_000,
+            Tier::Quick => 1_200_000,
             Tier::Thorough => 16_000_000,
         }
     }
@@ -293,5 +293,18 @@ impl Property for P {
     }
     fn min_nontrivial_share() -> f64 {
         0.2
+    }
+}
+
+pub fn decode(data: &[u8]) -> Case {
+    let mut r = crate::fuzzdec::Reader::new(data);
+    let mode = r.u8();
+    if mode & 2 == 2 {
+        // dense prefix alphabet
+        const T: &[&str] = &[" ", "-", "+", "*", ">", "#", "/", "a", "\n", "\r\n", "\r", "b c", " ", "\n", "a", "\u{e9}"];
+        let s: String = r.rest().iter().map(|b| T[*b as usize % T.len()]).collect();
+        Case::Any { text: s }
+    } else {
+        Case::Any { text: crate::fuzzdec::text(mode, r.rest()) }
     }
 }
